@@ -15,8 +15,15 @@ def canonNat (s : String) (bound : Nat) : Option Nat :=
   | some n => if toString n = s && n < bound then some n else none
   | none => none
 
+/-- `tx <action> <cb> <k>`: the optional input count `k ≤ 40` (canonical decimal) is validated and
+    dropped — the model's deadlines do not depend on the size of the signing batch. -/
+def dropInputs (fs : List String) : List String :=
+  match fs with
+  | ["tx", a, s, k] => if (canonNat k 41).isSome then ["tx", a, s] else ["bad"]
+  | fs => fs
+
 def model (line : String) : String :=
-  match splitWs line with
+  match dropInputs (splitWs line) with
   | ["tx", a, s] =>
     match parseAction a, canonNat s (2 ^ 63) with
     | some a, some cb =>
@@ -46,7 +53,7 @@ def fieldNat (obs key : String) : Option Nat := (field obs key).bind String.toNa
 def badOr (obs : String) : String := if obs = "bad-op" then "ok" else "FAIL bad-op-accepted"
 
 def monitor (op obs : String) : String :=
-  match splitWs op with
+  match dropInputs (splitWs op) with
   | ["tx", a, s] =>
     match parseAction a, canonNat s (2 ^ 63) with
     | some a, some s =>
